@@ -95,6 +95,7 @@ impl World for SemaphoreWorld {
         for mode in [0u8, 1] {
             if tier == Tier::Quick {
                 v.push((Cfg { flavour: FL_CHECKED, mode, x: 0, y: 2, k: 2 }, 64));
+                v.push((Cfg { flavour: FL_CHECKED, mode, x: 1, y: 3, k: 2 }, 64));
             } else {
                 for (x, y) in [(0u8, 3u8), (1, 3), (2, 3), (3, 4)] {
                     v.push((Cfg { flavour: FL_CHECKED, mode, x, y, k: 3 }, 200));
@@ -579,7 +580,7 @@ fn run_m<M: RawMutex>(cfg: &Cfg, ops: &[Op], run: &mut Run) {
 #[allow(clippy::too_many_arguments)]
 fn monitors<M: RawMutex>(
     sem: &Sem<M>,
-    fair: bool,
+    _fair: bool,
     slots: &[Slot<SemFut<'_, M>>],
     ledger: usize,
     released_total: usize,
@@ -596,7 +597,9 @@ fn monitors<M: RawMutex>(
             "permits-not-conserved",
             format!("permits() == {} but initial + released + returned - acquired == {}", permits, ledger),
         );
-        return;
+        if run.failed() {
+            return;
+        }
     }
     // C06: the longest waiting acquirer is never stranded
     let pend: Vec<usize> = (0..slots.len()).filter(|&i| slots[i].pending()).collect();
@@ -612,7 +615,9 @@ fn monitors<M: RawMutex>(
                     pend, head, req, permits
                 ),
             );
-            return;
+            if run.failed() {
+                return;
+            }
         }
     }
     // C17
@@ -624,7 +629,9 @@ fn monitors<M: RawMutex>(
             }
             if t != s.done {
                 run.violate("C17", "is_terminated-mismatch", format!("slot {}: is_terminated() == {} but completed == {}", i, t, s.done));
-                return;
+                if run.failed() {
+                    return;
+                }
             }
         }
     }
